@@ -220,6 +220,27 @@ func withinWrappers(fn *ssa.Function, allowed []string, depth int) bool {
 	return true
 }
 
+var c8Wrappers = map[string][2][]string{
+	"go.uber.org/zap/zapcore._jsonPool":              {{"(*go.uber.org/zap/zapcore.jsonEncoder).clone"}, {"go.uber.org/zap/zapcore.putJSONEncoder"}},
+	"go.uber.org/zap/zapcore._sliceEncoderPool":      {{"go.uber.org/zap/zapcore.getSliceEncoder"}, {"go.uber.org/zap/zapcore.putSliceEncoder"}},
+	"go.uber.org/zap/zapcore._cePool":                {{"go.uber.org/zap/zapcore.getCheckedEntry"}, {"go.uber.org/zap/zapcore.putCheckedEntry"}},
+	"go.uber.org/zap/zapcore._errArrayElemPool":      {{"go.uber.org/zap/zapcore.newErrArrayElem"}, {"(*go.uber.org/zap/zapcore.errArrayElem).Free"}},
+	"go.uber.org/zap._errArrayElemPool":              {{"(go.uber.org/zap.errArray).MarshalLogArray"}, {"(go.uber.org/zap.errArray).MarshalLogArray"}},
+	"go.uber.org/zap/internal/stacktrace._stackPool": {{"go.uber.org/zap/internal/stacktrace.Capture"}, {"(*go.uber.org/zap/internal/stacktrace.Stack).Free"}},
+	"go.uber.org/zap/buffer.Pool.p":                  {{"(go.uber.org/zap/buffer.Pool).Get"}, {"(go.uber.org/zap/buffer.Pool).put"}},
+}
+
+// c8ReleaseFns: the functions that hand an object back to its pool.
+func c8ReleaseFns() map[string]bool {
+	out := map[string]bool{"(*go.uber.org/zap/buffer.Buffer).Free": true}
+	for _, w := range c8Wrappers {
+		for _, p := range w[1] {
+			out[p] = true
+		}
+	}
+	return out
+}
+
 func checkC08(c *Ctx) {
 	c.Rule("R8.1", "reset completeness: every mutable field of a pooled struct is neutralised before Put or reassigned after Get", 7)
 	c.Rule("R8.2", "Pool.Get/Put are called only from the designated wrappers", 9)
@@ -231,15 +252,7 @@ func checkC08(c *Ctx) {
 	if len(pools) < 7 {
 		c.Bad("R8.1", "pools", "count", token.NoPos, "expected at least 7 pools, discovered %d", len(pools))
 	}
-	wrappers := map[string][2][]string{
-		"go.uber.org/zap/zapcore._jsonPool":              {{"(*go.uber.org/zap/zapcore.jsonEncoder).clone"}, {"go.uber.org/zap/zapcore.putJSONEncoder"}},
-		"go.uber.org/zap/zapcore._sliceEncoderPool":      {{"go.uber.org/zap/zapcore.getSliceEncoder"}, {"go.uber.org/zap/zapcore.putSliceEncoder"}},
-		"go.uber.org/zap/zapcore._cePool":                {{"go.uber.org/zap/zapcore.getCheckedEntry"}, {"go.uber.org/zap/zapcore.putCheckedEntry"}},
-		"go.uber.org/zap/zapcore._errArrayElemPool":      {{"go.uber.org/zap/zapcore.newErrArrayElem"}, {"(*go.uber.org/zap/zapcore.errArrayElem).Free"}},
-		"go.uber.org/zap._errArrayElemPool":              {{"(go.uber.org/zap.errArray).MarshalLogArray"}, {"(go.uber.org/zap.errArray).MarshalLogArray"}},
-		"go.uber.org/zap/internal/stacktrace._stackPool": {{"go.uber.org/zap/internal/stacktrace.Capture"}, {"(*go.uber.org/zap/internal/stacktrace.Stack).Free"}},
-		"go.uber.org/zap/buffer.Pool.p":                  {{"(go.uber.org/zap/buffer.Pool).Get"}, {"(go.uber.org/zap/buffer.Pool).put"}},
-	}
+	wrappers := c8Wrappers
 	exemptFields := map[string]string{
 		"go.uber.org/zap/internal/stacktrace.Stack.storage": "capacity only: pcs is re-sliced from it in Capture before any read; its old contents are overwritten by runtime.Callers up to the count that is then used",
 		"go.uber.org/zap/buffer.Buffer.pool":                "reassigned by Pool.Get on every hand-out (checked as get-side assignment)",
@@ -325,7 +338,7 @@ func checkC08(c *Ctx) {
 		}
 	}
 	releaseFns["(*go.uber.org/zap/buffer.Buffer).Free"] = true
-	c8UseAfterRelease(c, releaseFns)
+	c8UseAfterRelease(c, "R8.3", releaseFns)
 	c8SingleRelease(c)
 	c8Ownership(c)
 }
@@ -340,12 +353,100 @@ func relName(cl ssa.CallInstruction) string {
 // c8UseAfterRelease: in every function, after a (non-deferred) release call on
 // o, no instruction uses o; and no reference-typed field value of o escapes
 // (is returned or stored into another object) from a function that releases o.
-func c8UseAfterRelease(c *Ctx, releaseFns map[string]bool) {
+func c8UseAfterRelease(c *Ctx, rule string, releaseFns map[string]bool) {
 	transfer := map[string]string{
 		"(*go.uber.org/zap/zapcore.jsonEncoder).EncodeEntry|buf": "explicit ownership transfer: `ret := final.buf; putJSONEncoder(final); return ret` — legal because putJSONEncoder clears but does not free buf (checked by R8.4/put-json-keeps-buf)",
 	}
 	n := 0
 	c.EachRootFunc(func(fn *ssa.Function) {
+		// a DEFERRED release runs before the caller sees the result: nothing that points into the object may be returned
+		for _, g := range WithClosures(fn) {
+			for _, cl := range Calls(g) {
+				df, isDefer := cl.(*ssa.Defer)
+				deferredCtx := isDefer || g != fn && closureIsDeferred(g)
+				if !deferredCtx || !releaseFns[relName(cl)] {
+					continue
+				}
+				if _, isCall := cl.(*ssa.Call); !isCall && !isDefer {
+					continue
+				}
+				_ = df
+				args := Args(cl)
+				if len(args) == 0 {
+					continue
+				}
+				obj := args[0]
+				if relName(cl) == poolPut && len(args) == 2 {
+					obj = args[1]
+				}
+				objS := Strip(obj)
+				// resolve a captured variable to what the enclosing function stored in it
+				if u, ok := objS.(*ssa.UnOp); ok {
+					if fa, ok := u.X.(*ssa.FieldAddr); ok {
+						_ = fa
+					}
+					if fv, ok := u.X.(*ssa.FreeVar); ok {
+						if b := c18Binding(fv); b != nil {
+							if al, ok := b.(*ssa.Alloc); ok {
+								if sv := singleStoreLoose(al); sv != nil {
+									objS = Strip(sv)
+								}
+							}
+						}
+					}
+				}
+				var esc []string
+				AllInstrs(fn, func(i ssa.Instruction) {
+					if x, ok := i.(*ssa.Call); ok {
+						if f := CalleeFunc(x); f != nil && f.Name() == "Bytes" && len(Args(x)) == 1 {
+							recv := Strip(Args(x)[0])
+							if u, ok := recv.(*ssa.UnOp); ok {
+								if al, ok := u.X.(*ssa.Alloc); ok {
+									if sv := singleStoreLoose(al); sv != nil {
+										recv = Strip(sv)
+									}
+								}
+							}
+							same := recv == objS
+							if !same {
+								// obj is a field of the released object (context.buf.Free() with putJSONEncoder(context))
+								if u2, ok := objS.(*ssa.UnOp); ok {
+									if fa, ok := u2.X.(*ssa.FieldAddr); ok {
+										if u3, ok := recv.(*ssa.UnOp); ok {
+											if fb, ok := u3.X.(*ssa.FieldAddr); ok && fa.Field == fb.Field && Desc(fa.X) == Desc(fb.X) {
+												same = true
+											}
+										}
+									}
+								}
+							}
+							if same {
+								if e := escapes(x, objS, 0); e == "is returned" {
+									esc = append(esc, "Bytes() "+e)
+								} else {
+									// results are spilled around the deferred calls: look at what the returns yield
+									for _, r := range Returns(fn) {
+										for _, rv := range RetVals(r) {
+											v := Strip(rv)
+											if sl, ok := v.(*ssa.Slice); ok {
+												v = Strip(sl.X)
+											}
+											if v == ssa.Value(x) {
+												esc = append(esc, "Bytes() is returned")
+											}
+										}
+									}
+								}
+							}
+						}
+					}
+				})
+				if len(esc) > 0 {
+					n++
+					c.Bad(rule, FuncKey(fn), "deferred-release/"+strings.TrimPrefix(relName(cl), "go.uber.org/zap/")+"("+Desc(obj)+")", cl.Pos(), "the object is released by a deferred call, i.e. before the caller uses the result, yet a reference into its storage %v", esc)
+				}
+			}
+		}
 		for _, cl := range Calls(fn) {
 			call, isCall := cl.(*ssa.Call)
 			if !isCall || !releaseFns[relName(cl)] {
@@ -382,7 +483,7 @@ func c8UseAfterRelease(c *Ctx, releaseFns map[string]bool) {
 				return ok && i == def
 			})
 			if w != nil {
-				c.Bad("R8.3", name, slot+"/use-after", call.Pos(), "%s is used after it was released (at %s: %s); the pool may already have handed it to another call", Desc(obj), c.Pos(w.Pos()), w.String())
+				c.Bad(rule, name, slot+"/use-after", call.Pos(), "%s is used after it was released (at %s: %s); the pool may already have handed it to another call", Desc(obj), c.Pos(w.Pos()), w.String())
 				continue
 			}
 			// escaping aliases of o's storage
@@ -413,11 +514,11 @@ func c8UseAfterRelease(c *Ctx, releaseFns map[string]bool) {
 					}
 				}
 			})
-			c.Check(len(esc) == 0, "R8.3", name, slot, call.Pos(), "no later use of %s and no reference into its storage outlives the release %v", Desc(obj), esc)
+			c.Check(len(esc) == 0, rule, name, slot, call.Pos(), "no later use of %s and no reference into its storage outlives the release %v", Desc(obj), esc)
 		}
 	})
 	if n < 10 {
-		c.Bad("R8.3", "release sites", "count", token.NoPos, "only %d release sites found", n)
+		c.Bad(rule, "release sites", "count", token.NoPos, "only %d release sites found", n)
 	}
 }
 
@@ -602,4 +703,21 @@ func c8Ownership(c *Ctx) {
 			c.Check(okV, "R8.5", FuncKey(a.Fn), "buffer-field/"+a.Field+"@"+relLine(c, a), stI.Pos(), "%s.%s is assigned %s: must be nil or a buffer fresh from the pool — copying another encoder's buffer pointer gives two owners that both free it", tn.name, a.Field, Desc(stI.Val))
 		}
 	}
+}
+
+// closureIsDeferred: the function literal g is only ever used as the operand of a defer statement.
+func closureIsDeferred(g *ssa.Function) bool {
+	par := g.Parent()
+	if par == nil {
+		return false
+	}
+	ok := false
+	AllInstrs(par, func(i ssa.Instruction) {
+		if df, isD := i.(*ssa.Defer); isD {
+			if mk, isMk := df.Call.Value.(*ssa.MakeClosure); isMk && mk.Fn == ssa.Value(g) {
+				ok = true
+			}
+		}
+	})
+	return ok
 }
